@@ -5,7 +5,7 @@ import json, os, re, subprocess, sys, shutil
 SRC = "/tmp/seed"
 DST = "/verif/seeded"
 confirm = {}
-for log in ("/verif/build/confirm1.log", "/verif/build/confirm2.log", "/tmp/seed/confirm2.log", "/tmp/seed/confirm3.log", "/tmp/seed/confirm4.log", "/tmp/seed/confirm5.log", "/tmp/seed/confirm6.log"):
+for log in ("/verif/build/confirm1.log", "/verif/build/confirm2.log", "/tmp/seed/confirm2.log", "/tmp/seed/confirm3.log", "/tmp/seed/confirm4.log", "/tmp/seed/confirm5.log", "/tmp/seed/confirm6.log", "/tmp/seed/confirm7.log"):
     if os.path.exists(log):
         for l in open(log):
             m = re.match(r"(C\d+)/([a-z]) suite=\[(.*?)\] nodefault_errors=(\d+) with=\[(.*?)\] without=\[(.*?)\]", l)
